@@ -245,12 +245,20 @@ def install_decoder_watches(I):
                  keys=list(t.keys()) if isinstance(t, dict) else None, tableobj=t)
 
     def w_b2i(I_, f, locs, node, frame):
-        if I_.callstack and I_.callstack[-1][0].endswith(":decode_bits"):
+        if I_.callstack and I_.callstack[-1][0] == CODEC_FUNCS_[0]:
             return
         I_.event("int-read", data=locs.get("ba"), where=frame.where(node) if frame else None)
 
-    I.watch[CONV + ":decode_bits"] = w_decode
-    I.watch[CONV + ":scsi_ba_to_int"] = w_b2i
+    # the functions the converter module exports under these names, wherever they are defined
+    conv = I.modules.get(CONV)
+    names = {}
+    for n in ("decode_bits", "scsi_ba_to_int"):
+        f = conv.env.get(n) if conv is not None else None
+        names[n] = f.qualname if isinstance(f, FuncVal) else CONV + ":" + n
+    global CODEC_FUNCS_, CODEC_FUNCS
+    CODEC_FUNCS_ = CODEC_FUNCS = (names["decode_bits"], names["scsi_ba_to_int"])
+    I.watch[names["decode_bits"]] = w_decode
+    I.watch[names["scsi_ba_to_int"]] = w_b2i
 
 
 def explore_decoder(prog, cls, fname, kwargs=None, max_paths=600, root="resp"):
@@ -311,8 +319,23 @@ def simplify(pos):
             return shift(parent, ln[1] + pos[3])
         if ln[0] == "expr" and not ln[2] and not ln[3]:
             return shift(parent, ln[1] + pos[3])
+        if ln[0] == "expr" and ln[1]:
+            # the constant part of a computed offset belongs to the offset: base + (4 + field) + 2 is base + field + 6
+            return ("dyn", parent, ("expr", 0) + tuple(ln[2:]), pos[3] + ln[1])
         return ("dyn", parent, ln, pos[3])
     return pos
+
+
+def deep_simplify(x):
+    """simplify every position inside a (reference) fact"""
+    if isinstance(x, tuple):
+        y = tuple(deep_simplify(e) for e in x)
+        if len(y) == 4 and y[0] == "dyn" and isinstance(y[2], tuple):
+            return simplify(y)
+        return y
+    if isinstance(x, list):
+        return [deep_simplify(e) for e in x]
+    return x
 
 
 def shift(pos, k):
@@ -325,10 +348,18 @@ def shift(pos, k):
     return pos
 
 
+class CondMap(dict):
+    """site / blob -> the conditions common to every path that reaches it; .per_path keeps each path's own set"""
+
+    def __init__(self):
+        super().__init__()
+        self.per_path = {}
+
+
 def facts_of(I, dps):
     """set of canonical facts over all paths of one decoder + per-site necessary conditions"""
     facts = set()
-    site_conds = {}
+    site_conds = CondMap()
     order = []
     seen = {}
     for dp in dps:
@@ -357,6 +388,7 @@ def facts_of(I, dps):
             pos = simplify(canon_pos(s["pos"], order)) if s["pos"][0] != "not-a-view" else s["pos"]
             key = ("site", s["table"], pos)
             facts.add(key)
+            site_conds.per_path.setdefault(key, []).append(set(conds))
             if key in site_conds:
                 site_conds[key] &= conds
             else:
@@ -368,6 +400,7 @@ def facts_of(I, dps):
             except TypeError:
                 continue
             facts.add(key)
+            site_conds.per_path.setdefault(key, []).append(set(conds))
             if key in site_conds:
                 site_conds[key] &= conds
             else:
